@@ -205,7 +205,7 @@ pub fn exec(prop: &str, case: &Case) -> Outcome {
             let mut violation = None;
             if let Some(crate::front::Res::Ok) = run.finish_result() {
                 let bytes = &run.sink.durable[run.sink.prefill..run.durable_at_return.max(run.sink.prefill)];
-                violation = check_footer("C08", bytes).or_else(|| {
+                violation = check_footer("C08", bytes).or_else(|| unaligned_verify("C08", bytes)).or_else(|| {
                     let p = crate::restart::probe(bytes);
                     if p.verify_ok != Some(true) {
                         Some(Violation {
@@ -265,7 +265,7 @@ pub fn exec(prop: &str, case: &Case) -> Outcome {
             }
             let violation = if prop == "C08" {
                 if cc.muts.is_empty() && matches!(cc.base, Base::Build(_)) {
-                    check_footer("C08", &bytes).or_else(|| {
+                    check_footer("C08", &bytes).or_else(|| unaligned_verify("C08", &bytes)).or_else(|| {
                         let p = crate::restart::probe(&bytes);
                         if p.verify_ok != Some(true) {
                             Some(Violation {
@@ -277,7 +277,7 @@ pub fn exec(prop: &str, case: &Case) -> Outcome {
                         }
                     })
                 } else {
-                    check_c08b_bytes(&orig, &bytes)
+                    check_c08b_bytes(&orig, &bytes, true)
                 }
             } else {
                 check_c20_bytes(&bytes)
@@ -297,6 +297,7 @@ pub fn exec(prop: &str, case: &Case) -> Outcome {
                         crate::restart::Mutation::Tail { .. } => "corrupt.garbage_footer",
                         crate::restart::Mutation::Version { .. } => "corrupt.version_field",
                         crate::restart::Mutation::FixChecksum => "corrupt.checksum_recomputed_over_garbage",
+                        crate::restart::Mutation::Downgrade { .. } => "corrupt.downgraded_to_version_1_or_2",
                     },
                     1,
                 ));
@@ -401,6 +402,27 @@ pub fn exec(prop: &str, case: &Case) -> Outcome {
                 detail: serde_json::Value::Null,
             }
         }
+        ("C11", Case::MemBuild(mc)) => {
+            // `every` doubles as the selector: 0 = first flush fails,
+            // n > 0 = write call n fails
+            let at = if mc.every == 0 { None } else { Some(mc.every as usize) };
+            let run = crate::mem::run_big_fault(mc, at);
+            let tags = vec![
+                ("sink.short_write", run.short),
+                ("sink.interrupted", run.intr),
+                (if at.is_none() { "sink.flush_error" } else { "sink.hard_error" }, 1),
+                ("probe.fault_in_multi_MiB_build", (run.bytes > (1 << 20)) as u64),
+            ];
+            Outcome {
+                digest: run.digest,
+                nontrivial: true,
+                violation: run.violation,
+                explicit: case.clone(),
+                tags,
+                steps: mc.fam.n,
+                detail: serde_json::Value::Null,
+            }
+        }
         ("C13", Case::MemBuild(mc)) => {
             let run = run_mem_build(mc);
             let tags = vec![
@@ -453,6 +475,21 @@ pub fn exec(prop: &str, case: &Case) -> Outcome {
         }
         _ => harness_error(format!("no executor for property {} and case kind {}", prop, case.kind())),
     }
+}
+
+/// A fresh build must verify wherever its bytes happen to lie in memory.
+pub fn unaligned_verify(pid: &str, bytes: &[u8]) -> Option<Violation> {
+    let (res, panic) = crate::restart::probe_unaligned(bytes);
+    if let Some(m) = panic {
+        return Some(Violation { oracle: format!("{}.verify_panics_on_fresh_build", pid), observed: m });
+    }
+    if res.iter().any(|r| *r != Some(true)) {
+        return Some(Violation {
+            oracle: format!("{}.verify_rejects_fresh_build", pid),
+            observed: format!("open+verify of the same {} bytes at addresses 1,5,8,15 mod 16 gave {:?}", bytes.len(), res),
+        });
+    }
+    None
 }
 
 fn orig_complete(cc: &CorruptCase) -> Vec<u8> {
